@@ -2439,6 +2439,7 @@ func (a *Association) handleData(chunkPayload *chunkPayloadData) []*packet {
 		a.t2Shutdown.stop()
 	}
 
+	duplicate := false
 	canPush := a.payloadQueue.canPush(chunkPayload.tsn)
 	if canPush {
 		if !a.acceptPayloadData(chunkPayload) {
@@ -2448,6 +2449,11 @@ func (a *Association) handleData(chunkPayload *chunkPayloadData) []*packet {
 
 			return nil
 		}
+	} else if sna32LTE(chunkPayload.tsn, a.peerLastTSN()) || a.payloadQueue.hasChunk(chunkPayload.tsn) {
+		// RFC 9260 sec 6.2: a duplicate DATA chunk is reported in the Duplicate TSN
+		// list of the next SACK, and that SACK is sent without delay.
+		a.payloadQueue.push(chunkPayload.tsn)
+		duplicate = true
 	}
 
 	// Upon the reception of a new DATA chunk, an endpoint shall examine the
@@ -2459,7 +2465,7 @@ func (a *Association) handleData(chunkPayload *chunkPayloadData) []*packet {
 	expectedTSN := a.peerLastTSN() + 1
 	gapDetected := sna32GT(chunkPayload.tsn, expectedTSN)
 
-	sackNow := chunkPayload.immediateSack || gapDetected
+	sackNow := chunkPayload.immediateSack || gapDetected || duplicate
 	if state == shutdownSent {
 		sackNow = true
 	}
